@@ -1,6 +1,7 @@
 package prometheus
 
 import (
+	sdkmetric "go.opentelemetry.io/otel/sdk/metric"
 	"fmt"
 	"sort"
 	"strings"
@@ -159,9 +160,67 @@ func TestVerifC18Names(t *testing.T) {
 		out.Line("val %s %s => %s", gen, strings.Join(in, " "), strings.Join(res, " "))
 	}
 
+	// option sequences: New(opts...) with any order and repetitions; observed = the collector fields New filled in
+	// (T U C S switches, namespace, the resource filter probed with four keys)
+	emitOpts := func(gen string, legacy bool, toks []string) {
+		c18SetScheme(legacy)
+		var opts []Option
+		for _, tk := range toks {
+			switch {
+			case tk == "T":
+				opts = append(opts, WithoutTargetInfo())
+			case tk == "U":
+				opts = append(opts, WithoutUnits())
+			case tk == "C":
+				opts = append(opts, WithoutCounterSuffixes())
+			case tk == "S":
+				opts = append(opts, WithoutScopeInfo())
+			case tk == "R1":
+				opts = append(opts, WithResourceAsConstantLabels(func(attribute.KeyValue) bool { return true }))
+			case tk == "R2":
+				opts = append(opts, WithResourceAsConstantLabels(attribute.NewDenyKeysFilter("r.a", "service.name")))
+			case tk == "R3":
+				opts = append(opts, WithResourceAsConstantLabels(func(attribute.KeyValue) bool { return false }))
+			case tk == "X":
+				opts = append(opts, WithAggregationSelector(sdkmetric.DefaultAggregationSelector))
+			case strings.HasPrefix(tk, "N:"):
+				opts = append(opts, WithNamespace(vUnhex(tk[2:])))
+			}
+		}
+		cr := &c18CapReg{}
+		// the registerer option goes to a random-looking but fixed place: first
+		if _, err := New(append([]Option{WithRegisterer(cr)}, opts...)...); err != nil {
+			out.Line("opts %s %d %s => new-error", gen, b2i(legacy), strings.Join(toks, ","))
+			return
+		}
+		c := cr.c.(*collector)
+		c.mu.Lock()
+		dt := c.disableTargetInfo
+		c.mu.Unlock()
+		filt := "-"
+		if c.resourceAttributesFilter != nil {
+			filt = ""
+			for _, k := range []string{"r.a", "service.name", "r-b", "zz"} {
+				filt += fmt.Sprint(b2i(c.resourceAttributesFilter(attribute.String(k, "v"))))
+			}
+		}
+		ot := "-"
+		if len(toks) > 0 {
+			ot = strings.Join(toks, ",")
+		}
+		out.Line("opts %s %d %s => %d%d%d%d %s %s", gen, b2i(legacy), ot, b2i(dt), b2i(c.withoutUnits), b2i(c.withoutCounterSuffixes),
+			b2i(c.disableScopeInfo), vHex(c.namespace), filt)
+	}
+
 	if rp := vReplayLines(); rp != nil {
 		for _, f := range rp {
 			switch f[0] {
+			case "opts":
+				var toks []string
+				if f[3] != "-" {
+					toks = strings.Split(f[3], ",")
+				}
+				emitOpts(f[1], f[2] == "1", toks)
 			case "name":
 				emitName(f[1], f[2], f[3], vUnhex(f[4]), vUnhex(f[5]), f[6])
 			case "attrs":
@@ -289,6 +348,20 @@ func TestVerifC18Names(t *testing.T) {
 			}
 			emitVal("rnd", ops)
 		}
+	}
+	emitOpts("defaults", false, nil)
+	emitOpts("fixed", true, []string{"N:" + vHex("a"), "U", "N:" + vHex("my.ns"), "U", "R1", "R2"})
+	optPool := []string{"T", "U", "C", "S", "R1", "R2", "R3", "X"}
+	for i := 0; i < n/25; i++ {
+		var toks []string
+		for k := r.Intn(7); k > 0; k-- {
+			if r.Intn(4) == 0 {
+				toks = append(toks, "N:"+vHex(vPick(r, g.namespaces)))
+			} else {
+				toks = append(toks, vPick(r, optPool))
+			}
+		}
+		emitOpts("rnd", r.Intn(3) == 0, toks)
 	}
 }
 
